@@ -645,9 +645,36 @@ def _byte_length_of_value(prog: Program, run: Run, R: str = "C02.R5") -> None:
                           "for values whose characters are not one code unit each", f.loc)
 
 
+def _const_eval(e: ast.AST, env: Dict[str, object]):
+    """evaluate a small constant-building expression (bytes([..]), [x] * n, conditional
+    expressions on the scenario) -- raises ValueError on anything else"""
+    from ..absint import eval_test
+    if isinstance(e, ast.Constant):
+        return e.value
+    if isinstance(e, (ast.List, ast.Tuple)):
+        return [_const_eval(x, env) for x in e.elts]
+    if isinstance(e, ast.BinOp) and isinstance(e.op, (ast.Mult, ast.Add)):
+        l, r = _const_eval(e.left, env), _const_eval(e.right, env)
+        return l * r if isinstance(e.op, ast.Mult) else l + r
+    if isinstance(e, ast.IfExp):
+        c = eval_test(e.test, env)
+        if c is None:
+            raise ValueError(ast.unparse(e.test))
+        return _const_eval(e.body if c else e.orelse, env)
+    if isinstance(e, ast.Call) and call_name(e) in ("bytes", "bytearray") and len(e.args) == 1:
+        return bytes(_const_eval(e.args[0], env))
+    if isinstance(e, (ast.Name, ast.Attribute)) and ast.unparse(e) in env:
+        return env[ast.unparse(e)]
+    raise ValueError(ast.unparse(e))
+
+
 def _terminator_width(prog: Program, run: Run, R: str = "C02.R5") -> None:
-    """The terminator is as wide as a code unit of the BASE DATA TYPE (two bytes exactly for
-    A_UNICODE2STRING); the optional BASE-TYPE-ENCODING must not decide it."""
+    """The terminator is one code unit of the BASE DATA TYPE: two bytes exactly for
+    A_UNICODE2STRING, whatever BASE-TYPE-ENCODING says; 0x00 for ZERO, 0xFF for HEX-FF, nothing
+    for END-OF-PDU. Decided as a table over (termination, base type, encoding) on the symbolic
+    returns of the helper."""
+    from ..absint import eval_test
+    from ..cfg import symbolic_returns
     ci = prog.cls("MinMaxLengthType")
     f = None
     for nm, m in ci.methods.items():
@@ -655,22 +682,41 @@ def _terminator_width(prog: Program, run: Run, R: str = "C02.R5") -> None:
             f = m
     if f is None:
         raise AnalysisError("MinMaxLengthType.__termination_sequence not found")
-    tests = [x.test for x in walk_no_nested(f.node) if isinstance(x, ast.If)]
-    by_type = [t for t in tests if "base_data_type" in ast.unparse(t) and
-               "A_UNICODE2STRING" in ast.unparse(t)]
-    by_enc = [t for t in tests if "base_type_encoding" in ast.unparse(t)]
-    if by_enc:
-        run.violation(R, f.qual, "terminator-width-by-encoding",
-                      f"`{ast.unparse(by_enc[0])}` makes the width of the terminator depend on "
-                      "BASE-TYPE-ENCODING: an A_UNICODE2STRING without explicit encoding gets a "
-                      "one-byte terminator (and a non-UCS2 type with that encoding a two-byte "
-                      "one), so encoder / decoder disagree with the ODX layout",
-                      f"{f.module.rel}:{by_enc[0].lineno}", ast.unparse(by_enc[0]))
-    elif by_type:
-        run.ok(R, f.qual, "two-byte terminator exactly for A_UNICODE2STRING", f.loc)
-    else:
-        run.violation(R, f.qual, "terminator-width", "the terminator width does not depend on "
-                      "the base data type (A_UNICODE2STRING needs two bytes)", f.loc)
+    rets = symbolic_returns(f.node)
+    bad: Dict[str, str] = {}
+    n = 0
+    for term, byte in (("ZERO", 0), ("HEX_FF", 255), ("END_OF_PDU", None)):
+        for dt in ("A_UNICODE2STRING", "A_ASCIISTRING", "A_UTF8STRING", "A_BYTEFIELD"):
+            for enc in (None, "Encoding.UCS2", "Encoding.UTF8", "Encoding.ISO_8859_1"):
+                env = {"self.termination": f"Termination.{term}",
+                       "self.base_data_type": f"DataType.{dt}", "self.base_type_encoding": enc}
+                want = b"" if byte is None else bytes([byte]) * (
+                    2 if dt == "A_UNICODE2STRING" else 1)
+                got = set()
+                for conds, e, _r in rets:
+                    if all(eval_test(t, env) in (None, pol) for t, pol in conds):
+                        try:
+                            got.add(_const_eval(e, env) if e is not None else None)
+                        except (ValueError, TypeError) as ex:
+                            got.add(f"?{ex}")
+                n += 1
+                if got != {want}:
+                    by_enc = dt != "A_UNICODE2STRING" and enc == "Encoding.UCS2" or (
+                        dt == "A_UNICODE2STRING" and enc != "Encoding.UCS2")
+                    key = "terminator-width-by-encoding" if by_enc and any(
+                        isinstance(g, bytes) for g in got) else "terminator-width"
+                    bad.setdefault(key, f"termination {term}, {dt}, encoding "
+                                   f"{enc or 'not given'}: the terminator is "
+                                   f"{sorted(map(repr, got))}, expected {want!r}")
+    if not bad:
+        run.ok(R, f.qual, f"terminator byte and width are right in all {n} combinations of "
+               "termination, base type and encoding (two bytes exactly for A_UNICODE2STRING)",
+               f.loc)
+    for key, msg in sorted(bad.items()):
+        run.violation(R, f.qual, key, msg + (
+            ": the width of the terminator depends on BASE-TYPE-ENCODING, so encoder / decoder "
+            "disagree with the ODX layout" if key.endswith("encoding") else
+            ": the terminator must be one code unit of the base data type"), f.loc)
 
 
 def _atomic_sites(prog: Program, run: Run, R: str = "C02.R2") -> None:
